@@ -78,6 +78,9 @@ func (oracleC06) Step(x *OCtx, t *Trans) []Violation {
 		if qc == nil || ((kind == "updctx" || kind == "mupdate") && t.Act.Ctx == id && t.Res.OK()) || (kind == "restart" && t.Res.OK()) {
 			continue
 		}
+		if cappedInCallback(t, id) {
+			continue // updated by its owning module from inside a callback of this step
+		}
 		same := len(pc.Providers) == len(qc.Providers) && pc.ServiceFeeCap.IsEqual(qc.ServiceFeeCap) && pc.Timeout == qc.Timeout && pc.ResponseThreshold == qc.ResponseThreshold
 		for i := 0; same && i < len(pc.Providers); i++ {
 			same = bytes.Equal(pc.Providers[i], qc.Providers[i])
@@ -129,6 +132,14 @@ func (oracleC06) Step(x *OCtx, t *Trans) []Violation {
 		}
 		if !advanced && !paused && !due {
 			continue
+		}
+		if cappedInCallback(t, id) && capChangedBeforeItsTurn(t, id, ids) {
+			// its owning module lowered the fee cap from inside the state callback of a context processed earlier in
+			// this end of block: the batch is decided under the cap in force when its turn comes
+			cp := *pc
+			cp.ServiceFeeCap = qc.ServiceFeeCap
+			pc = &cp
+			x.Wit("C06:decided-under-terms-updated-in-a-callback-of-this-block")
 		}
 		d := refDecision(x.Sc, t.Post, pc, t.Pre, func(p []byte) uint64 { return storedVolume(t.Pre, pc.Consumer, pc.ServiceName, p) }, balOf(pc.Consumer))
 		x.Wit("C06:decision-" + d.Kind)
@@ -316,4 +327,32 @@ func namesOf(ps []sdk.AccAddress) []string {
 		out = append(out, nameOf(p))
 	}
 	return out
+}
+
+// cappedInCallback: the owning module lowered this context's fee cap from inside a callback during this step.
+func cappedInCallback(t *Trans, id string) bool {
+	for _, cb := range t.Res.Callbacks {
+		if cb.Kind == "cap1" && cb.Ctx == id {
+			return true
+		}
+	}
+	return false
+}
+
+// capChangedBeforeItsTurn: the state callback that lowered the cap of context id belongs to a context that is
+// processed before it (ascending context ID).
+func capChangedBeforeItsTurn(t *Trans, id string, order []string) bool {
+	var trigger string
+	for i, cb := range t.Res.Callbacks {
+		if cb.Kind == "cap1" && cb.Ctx == id {
+			for j := i - 1; j >= 0; j-- {
+				if t.Res.Callbacks[j].Kind == "state" {
+					trigger = t.Res.Callbacks[j].Ctx
+					break
+				}
+			}
+			break
+		}
+	}
+	return trigger != "" && trigger < id
 }
